@@ -1018,6 +1018,29 @@ def run(rep, props, replay=None):
     for t in POOL:
         pool_obj(t)
     state = {"filtered": 0, "steps": 0, "sig_count": {}, "reported": set(), "mon_seen": set()}
+    if replay is not None and replay.get("points") and not replay.get("history"):
+        # a violation of the normalisation tie: rebuild a fresh object on the stored sampling points and compare its
+        # standardised points with the model again
+        from harness import fd
+        pts = [np.asarray(p_, float) for p_ in replay["points"]]
+        runr = C.CoqRun("C11", "From FDAV Require Import Model.Normalize Tie.C11Norm.", shard=1)
+        lit = "[" + "; ".join(C.qlist(r) for r in pts) + "]"
+        try:
+            obj = fd.irregular(pts, [np.zeros(len(p_)) for p_ in pts])
+            st = [np.asarray(obj.argvals_stand[k]["input_dim_0"], float) for k in obj.argvals.keys()]
+            t = runr.add(f"norm_ok (1#1000000000000) {lit} [" + "; ".join(C.qlist(r) for r in st) + "]")
+            ok = runr.run()[t]
+        except Exception as e:  # noqa: BLE001
+            ok = False
+            print(f"replay: rebuilding the object raised {type(e).__name__}: {e}")
+        rep.case(("normalization-replay", str(replay["points"])), kind="normalization/replay")
+        if not ok:
+            rep.violation("standardised sampling points of a freshly built irregular dataset on the stored sampling points are not "
+                          "the affine image of its sampling points on [0, 1] (Model/Normalize.v)", {"points": replay["points"]})
+        else:
+            print("replay: a fresh object on these sampling points is standardised as the model says now (the stored violation "
+                  "concerned: " + str(replay.get("what", "a derived object"))[:160] + ")")
+        return
     if replay is not None:
         ops = replay.get("history")
         if not ops:
